@@ -50,6 +50,10 @@ def layout(tree):
     return nodes
 
 
+def name_of(in_options):
+    return 'options.bfg' if in_options else 'build.bfg'
+
+
 def render_tree(tree, in_options):
     nodes = layout(tree)
     files = {}
@@ -89,6 +93,14 @@ def render_tree(tree, in_options):
         if n['kids']:
             L.append("_e = submodule('shared')")
             L.append("_rec['got'].append(['shared', sorted(_e.items())])")
+        # an optional component whose script fails: the caller catches the error and carries on;
+        # everything it declares afterwards must still be relative to the CALLER
+        L.append("try:")
+        L.append("    submodule('broken')")
+        L.append("    _rec['broken'] = 'no error'")
+        L.append("except Exception as _x:")
+        L.append("    _rec['broken'] = 'caught'")
+        files[os.path.join(n['dir'], 'broken', name_of(in_options))] = "raise RuntimeError('optional component is missing')\n"
         # one script included by EVERY node (so it is executed several times in one run): each
         # inclusion must hand out its own exports -- the caller annotates what it received
         depth = len(n['dir'].split('/')) if n['dir'] else 0
@@ -172,6 +184,9 @@ def _tree_shard(arg):
                 if got != want:
                     viol.append(('exports', desc, 'script %d received %r, expected %r'
                                  % (nd['id'], got, want)))
+                if d.get('broken') != 'caught':
+                    viol.append(('failing-submodule', desc, 'script %d: including a script that raises: %r'
+                                 % (nd['id'], d.get('broken'))))
                 if d['gotkeys'] != [['cdict', 'cn', 'val', 'who']] * len(nd['kids']):
                     viol.append(('exports', desc, 'script %d received the keys %r' % (nd['id'], d['gotkeys'])))
                 c = d['common']
